@@ -11,13 +11,13 @@ Theorem C03_policy_refines : forall t xs, wf t = true -> typed t xs = true -> dt
 Proof. exact policy_refines. Qed.
 
 (* the three-valued evaluation of an input entry decides satisfaction *)
-Theorem C03_entry_satisfied : forall x u, value_typed x u = true -> in_test in_neg_list x u = of_bool (sat x u).
+Theorem C03_entry_satisfied : forall x u, value_typed x u = true -> in_test false true in_neg_list x u = of_bool (sat x u).
 Proof. exact in_test_sat. Qed.
 
 (* the rules the code collects are exactly the rules whose every entry is satisfied, in rule order *)
 Theorem C03_matching_exact : forall t xs, typed t xs = true ->
-  matching false t xs = map (eval_rule false t xs) (filter (rule_sat t xs) (t_rules t)).
-Proof. exact matching_hits. Qed.
+  matching false false t xs = map (eval_rule false false t xs) (filter (rule_sat t xs) (t_rules t)).
+Proof. exact matching_exact. Qed.
 
 Theorem C03_first_is_least_index : forall t xs, wf t = true -> typed t xs = true -> t_policy t = PFirst ->
   forall h hs, hits t xs = h :: hs ->
@@ -100,6 +100,25 @@ Theorem C03_orig_default_compound_refuted :
   dt_impl_orig t_dflt [ANum 0%Z] = onull /\ dt_impl t_dflt [ANum 0%Z] = dt_spec t_dflt [ANum 0%Z].
 Proof. exact orig_default_compound_refuted. Qed.
 
+Theorem C03_orig_dash_null_refuted :
+  wf t_dash = true /\ typed t_dash [ANull] = true /\
+  dt_spec t_dash [ANull] = OOne (RAtom (ANum 7)) /\ dt_impl_orig t_dash [ANull] = onull /\ dt_impl t_dash [ANull] = OOne (RAtom (ANum 7)).
+Proof. exact orig_dash_null_refuted. Qed.
+
+(* KNOWN FINDING null-literal-entry (listed in known_findings.txt): the literal null is not handled as a unary test
+   (an input entry `null` never matches, a list of tests is cut short at a null item).  C03_policy_refines therefore
+   excludes tables with null literals (no_null_lits, part of `typed`); with the literal handled the refinement holds
+   for them too (dt_impl_nl), and the witness shows the difference. *)
+Theorem C03_policy_refines_if_null_literal_handled : forall t xs, wf t = true -> typed_nl t xs = true -> dt_impl_nl t xs = dt_spec t xs.
+Proof. exact policy_refines_nl. Qed.
+
+Theorem C03_null_literal_known :
+  wf t_nulllit = true /\ typed_nl t_nulllit [ANull] = true /\ typed_nl t_nulllit [ANum 1%Z] = true /\ no_null_lits t_nulllit = false /\
+  dt_spec t_nulllit [ANull] = OMany [RAtom (ANum 7); RAtom (ANum 9)] /\ dt_impl t_nulllit [ANull] = onull /\
+  dt_spec t_nulllit [ANum 1%Z] = OMany [RAtom (ANum 8); RAtom (ANum 9)] /\ dt_impl t_nulllit [ANum 1%Z] = OMany [RAtom (ANum 9)] /\
+  dt_impl_nl t_nulllit [ANull] = dt_spec t_nulllit [ANull] /\ dt_impl_nl t_nulllit [ANum 1%Z] = dt_spec t_nulllit [ANum 1%Z].
+Proof. exact null_literal_known. Qed.
+
 Example C03_nonvacuous :
   wf t_ex = true /\ typed t_ex [ANum 5%Z; AStr 2] = true /\ length (hits t_ex [ANum 5%Z; AStr 2]) = 3 /\
   dt_impl t_ex [ANum 5%Z; AStr 2] = OOne (RCtx [(0%N, AStr 5); (1%N, ANum 3)]).
@@ -123,4 +142,7 @@ Print Assumptions C03_crash_if_ill_shaped.
 Print Assumptions C03_orig_negated_interval_refuted.
 Print Assumptions C03_orig_priority_flattened_refuted.
 Print Assumptions C03_orig_default_compound_refuted.
+Print Assumptions C03_orig_dash_null_refuted.
+Print Assumptions C03_policy_refines_if_null_literal_handled.
+Print Assumptions C03_null_literal_known.
 Print Assumptions C03_nonvacuous.
